@@ -23,6 +23,7 @@ Last section: the unhinted scaling pipeline of a simple glyph (Model/Scale.lean)
 Helper lemmas: Lemmas/FtEq.lean.
 -/
 import FontVerif.Lemmas.FtEq
+import FontVerif.Lemmas.MoveEq
 import FontVerif.Model.Scale
 set_option linter.unusedVariables false
 set_option linter.unusedSimpArgs false
@@ -468,5 +469,165 @@ example :
     let g : Scale.Simple := { pts := [(100, 0), (700, -20), (350, 1462)], xMin := 100, lsb := 37, adv := 1139 }
     Scale.skSimple (Scale.skScale 1024 1000) g = ([(37, 0), (652, -20), (293, 1497)], 1166)
     ∧ Scale.ftSimple (Scale.ftScale 1024 1000) g = ([(37, 0), (652, -20), (293, 1497)], 1166) := by decide
+
+/-! ### MIRP / MIAP / MDRP: the value handed to `move_point` / `func_move`
+(Model/HintMove.lean = skrifa `op_mirp`, `op_miap`, `op_mdrp`; Model/FtMove.lean = ttinterp.c
+`Ins_MIRP`, `Ins_MIAP`, `Ins_MDRP`).  For every flag combination, every round state in the range of
+`round_state_eq`, every cut-in, and distances within ±2^29 (8.4 million pixels) skrifa's handler
+computes exactly FreeType's move and does not trap. -/
+
+/-- MIRP, single-width stage. -/
+theorem mirp_sw_eq (g : HintMove.Gs) (c : Int) (hg : MoveRange g) (hc : Dist29 c) :
+    HintMove.mirpSw g c = FtMove.mirpSw g c ∧ Dist29 (FtMove.mirpSw g c) := by
+  obtain ⟨_, _, _, _, _, _, hsw, _⟩ := hg
+  have h1 := wabs_wsub hc (show Dist29 g.sw from hsw)
+  unfold HintMove.mirpSw FtMove.mirpSw
+  rw [h1.1]
+  unfold Dist29 at *
+  unfold HintRound.wneg
+  rw [wI32 (by omega) (by omega)]
+  constructor
+  · rfl
+  · repeat' split
+    all_goals omega
+
+/-- MIRP from the auto-flip test to the move (all 2^4 combinations of round flag, minimum-distance
+flag, same-zone and auto-flip). -/
+theorem mirp_move_eq (g : HintMove.Gs) (rnd mind same : Bool) (c org cur : Int)
+    (hg : MoveRange g) (hc : Dist29 c) (ho : Dist29 org) (hu : Dist29 cur) :
+    HintMove.mirpMove g rnd mind same c org cur = some (FtMove.mirpMove g rnd mind same c org cur) := by
+  obtain ⟨hm, ht, hph, hper, _, _, _, hmd⟩ := hg
+  unfold HintMove.mirpMove FtMove.mirpMove
+  -- auto-flip: both sides negate under the same condition
+  have hneg : HintRound.wneg c = FtCalc.negLong c ∧ Dist29 (FtCalc.negLong c) := by
+    unfold Dist29 at *; unfold HintRound.wneg FtCalc.negLong
+    rw [wI32 (by omega) (by omega), wI64 (by omega) (by omega)]; omega
+  rw [hneg.1]
+  generalize hc1 : (if (g.autoFlip = true ∧ lxorInt org c < 0) then FtCalc.negLong c else c) = c1
+  have hc1r : Dist29 c1 := by rw [← hc1]; split; exact hneg.2; exact hc
+  simp only []
+  have hab := wabs_wsub hc1r ho
+  rw [hab.1]
+  generalize hc2 : (if (same = true ∧ FtMove.absLong (FtCalc.subLong c1 org) > g.cutin) then org else c1) = c2
+  have hc2r : Dist29 c2 := by rw [← hc2]; split; exact ho; exact hc1r
+  have hr2 := round_state_eq g.mode g.thr g.ph g.per c2 hm ht hph hper (by unfold Dist29 at hc2r; omega)
+  have hb2 := ft_round_bound g.mode g.thr g.ph g.per c2 hm ht hph hper (by unfold Dist29 at hc2r; omega)
+  have hnone : FtRound.roundNone 0 c1 = c1 := by
+    unfold Dist29 at hc1r
+    unfold FtRound.roundNone FtCalc.addLong FtCalc.subLong
+    simp (disch := omega) only [wI64, Int.add_zero, Int.sub_zero]
+    repeat' split
+    all_goals omega
+  rw [hnone]
+  have hfin : ∀ d : Int, (-1082130432 ≤ d ∧ d ≤ 1082130432) →
+      HintMove.wsub d cur = FtCalc.subLong d cur := by
+    intro d hd; unfold Dist29 at hu; unfold HintMove.wsub FtCalc.subLong
+    rw [wI32 (by omega) (by omega), wI64 (by omega) (by omega)]
+  cases rnd <;> cases mind <;>
+    simp only [Bool.false_eq_true, if_false, if_true, hr2, Option.map_some, Option.some.injEq,
+      minDist_eq hmd]
+  · exact hfin _ (by unfold Dist29 at hc1r; omega)
+  · exact hfin _ (minDist_bound hmd (by unfold Dist29 at hc1r; omega))
+  · exact hfin _ hb2
+  · exact hfin _ (minDist_bound hmd hb2)
+
+/-- **MIRP**: `op_mirp` = `Ins_MIRP`. -/
+theorem mirp_eq (g : HintMove.Gs) (rnd mind same : Bool) (c org cur : Int)
+    (hg : MoveRange g) (hc : Dist29 c) (ho : Dist29 org) (hu : Dist29 cur) :
+    HintMove.mirp g rnd mind same c org cur = some (FtMove.mirp g rnd mind same c org cur) := by
+  unfold HintMove.mirp FtMove.mirp
+  have h := mirp_sw_eq g c hg hc
+  rw [h.1]
+  exact mirp_move_eq g rnd mind same _ org cur hg h.2 ho hu
+
+/-- **MIAP**: `op_miap` = `Ins_MIAP`. -/
+theorem miap_eq (g : HintMove.Gs) (rnd : Bool) (c cur : Int)
+    (hg : MoveRange g) (hc : Dist29 c) (hu : Dist29 cur) :
+    HintMove.miap g rnd c cur = some (FtMove.miap g rnd c cur) := by
+  obtain ⟨hm, ht, hph, hper, _, _, _, _⟩ := hg
+  unfold HintMove.miap FtMove.miap
+  have hab := wabs_wsub hc hu
+  rw [hab.1]
+  generalize hc1 : (if FtMove.absLong (FtCalc.subLong c cur) > g.cutin then cur else c) = c1
+  have hc1r : Dist29 c1 := by rw [← hc1]; split; exact hu; exact hc
+  have hr := round_state_eq g.mode g.thr g.ph g.per c1 hm ht hph hper (by unfold Dist29 at hc1r; omega)
+  have hb := ft_round_bound g.mode g.thr g.ph g.per c1 hm ht hph hper (by unfold Dist29 at hc1r; omega)
+  have hfin : ∀ d : Int, (-1082130432 ≤ d ∧ d ≤ 1082130432) →
+      HintMove.wsub d cur = FtCalc.subLong d cur := by
+    intro d hd; unfold Dist29 at hu; unfold HintMove.wsub FtCalc.subLong
+    rw [wI32 (by omega) (by omega), wI64 (by omega) (by omega)]
+  cases rnd <;> simp only [Bool.false_eq_true, if_false, if_true, hr, Option.map_some, Option.some.injEq]
+  · exact hfin _ (by unfold Dist29 at hc; omega)
+  · exact hfin _ hb
+
+/-- **MDRP**: `op_mdrp` = `Ins_MDRP` (single-width cut-in, rounding, minimum distance). -/
+theorem mdrp_eq (g : HintMove.Gs) (rnd mind : Bool) (org cur : Int)
+    (hg : MoveRange g) (hsc : Dist29 g.swci) (ho : Dist29 org) (hu : Dist29 cur) :
+    HintMove.mdrp g rnd mind org cur = some (FtMove.mdrp g rnd mind org cur) := by
+  obtain ⟨hm, ht, hph, hper, _, _, hsw, hmd⟩ := hg
+  unfold HintMove.mdrp FtMove.mdrp
+  have e1 : HintMove.wadd g.sw g.swci = g.sw + g.swci := by
+    unfold Dist29 at hsc; unfold HintMove.wadd; exact wI32 (by omega) (by omega)
+  have e2 : HintMove.wsub g.sw g.swci = g.sw - g.swci := by
+    unfold Dist29 at hsc; unfold HintMove.wsub; exact wI32 (by omega) (by omega)
+  have e3 : HintRound.wneg g.sw = -g.sw := by
+    unfold HintRound.wneg; exact wI32 (by omega) (by omega)
+  rw [e1, e2, e3]
+  generalize ho1 : (if (g.swci > 0 ∧ org < g.sw + g.swci ∧ org > g.sw - g.swci)
+    then (if org ≥ 0 then g.sw else -g.sw) else org) = o1
+  have ho1r : Dist29 o1 := by
+    unfold Dist29 at *; rw [← ho1]; repeat' split
+    all_goals omega
+  simp only []
+  have hr := round_state_eq g.mode g.thr g.ph g.per o1 hm ht hph hper (by unfold Dist29 at ho1r; omega)
+  have hb := ft_round_bound g.mode g.thr g.ph g.per o1 hm ht hph hper (by unfold Dist29 at ho1r; omega)
+  have hnone : FtRound.roundNone 0 o1 = o1 := by
+    unfold Dist29 at ho1r
+    unfold FtRound.roundNone FtCalc.addLong FtCalc.subLong
+    simp (disch := omega) only [wI64, Int.add_zero, Int.sub_zero]
+    repeat' split
+    all_goals omega
+  rw [hnone]
+  have hfin : ∀ d : Int, (-1082130432 ≤ d ∧ d ≤ 1082130432) →
+      HintMove.wsub d cur = FtCalc.subLong d cur := by
+    intro d hd; unfold Dist29 at hu; unfold HintMove.wsub FtCalc.subLong
+    rw [wI32 (by omega) (by omega), wI64 (by omega) (by omega)]
+  cases rnd <;> cases mind <;>
+    simp only [Bool.false_eq_true, if_false, if_true, hr, Option.map_some, Option.some.injEq,
+      minDist_eq hmd]
+  · exact hfin _ (by unfold Dist29 at ho1r; omega)
+  · exact hfin _ (minDist_bound hmd (by unfold Dist29 at ho1r; omega))
+  · exact hfin _ hb
+  · exact hfin _ (minDist_bound hmd hb)
+
+
+-- non-vacuity: the default graphics state (RTG, cut-in 17/16 px, minimum distance 1 px, auto-flip on)
+example : MoveRange ⟨0, 0, 0, 64, 68, 0, 0, 64, true⟩ ∧ Dist29 368 ∧ Dist29 (-300) := by
+  unfold MoveRange Dist29 inI32; decide
+-- MIRP[round+min] at the cut-in boundary: |cvt - org| = 68 keeps the cvt value (368 → 384), 69 falls back to
+-- the outline distance (300 → 320); both engines; the move is relative to the current distance 290
+example : HintMove.mirp ⟨0, 0, 0, 64, 68, 0, 0, 64, true⟩ true true true 368 300 290 = some 94
+    ∧ FtMove.mirp ⟨0, 0, 0, 64, 68, 0, 0, 64, true⟩ true true true 368 300 290 = 94
+    ∧ HintMove.mirp ⟨0, 0, 0, 64, 68, 0, 0, 64, true⟩ true true true 369 300 290 = some 30
+    ∧ FtMove.mirp ⟨0, 0, 0, 64, 68, 0, 0, 64, true⟩ true true true 369 300 290 = 30 := by decide
+-- auto-flip (cvt -368 against a positive outline distance) and the cut-in skipped for different zones
+example : HintMove.mirp ⟨0, 0, 0, 64, 68, 0, 0, 64, true⟩ true false true (-368) 300 0 = some 384
+    ∧ HintMove.mirp ⟨0, 0, 0, 64, 68, 0, 0, 64, false⟩ true false true (-368) 300 0 = some 320
+    ∧ HintMove.mirp ⟨0, 0, 0, 64, 68, 0, 0, 64, false⟩ true false false (-368) 300 0 = some (-384) := by decide
+-- minimum distance with a negative outline distance; single width replacing a cvt value within its cut-in
+example : HintMove.mirp ⟨0, 0, 0, 64, 68, 0, 0, 64, true⟩ false true true (-10) (-300) 0 = some (-64)
+    ∧ HintMove.mirp ⟨0, 0, 0, 64, 20000, 200, 30, 64, true⟩ false false true 229 300 0 = some 200
+    ∧ HintMove.mirp ⟨0, 0, 0, 64, 20000, 200, 30, 64, true⟩ false false true 230 300 0 = some 230 := by decide
+-- MIAP and MDRP
+example : HintMove.miap ⟨1, 0, 0, 64, 68, 0, 0, 64, true⟩ true 100 168 = some (-72)
+    ∧ FtMove.miap ⟨1, 0, 0, 64, 68, 0, 0, 64, true⟩ true 100 168 = -72
+    ∧ HintMove.miap ⟨1, 0, 0, 64, 68, 0, 0, 64, true⟩ true 100 169 = some (-9) := by decide
+example : HintMove.mdrp ⟨0, 0, 0, 64, 68, 200, 30, 64, true⟩ true true 229 0 = some 192
+    ∧ FtMove.mdrp ⟨0, 0, 0, 64, 68, 200, 30, 64, true⟩ true true 229 0 = 192
+    ∧ HintMove.mdrp ⟨0, 0, 0, 64, 68, 200, 30, 64, true⟩ true true 230 0 = some 256
+    ∧ HintMove.mdrp ⟨0, 0, 0, 64, 68, 200, 30, 64, true⟩ true true 20 0 = some 64 := by decide
+-- outside the range skrifa wraps at 32 bits, FreeType's long does not
+example : HintMove.mirp ⟨5, 0, 0, 64, 68, 0, 0, 64, true⟩ false false true 2147483647 0 (-1) = some (-2147483648)
+    ∧ FtMove.mirp ⟨5, 0, 0, 64, 68, 0, 0, 64, true⟩ false false true 2147483647 0 (-1) = 2147483648 := by decide
 
 end FontVerif.C03
